@@ -18,6 +18,13 @@
 #include <urcu/assert.h>
 #include <urcu/compiler.h>
 #include <urcu/uatomic.h>
+#ifdef URCU_VERIF
+#include <urcu/verif.h>
+#else
+#ifndef urcu_verif_point
+#define urcu_verif_point(id, ctx) do { } while (0)
+#endif
+#endif
 
 #ifdef __cplusplus
 extern "C" {
@@ -138,6 +145,7 @@ int _cds_wfs_push(cds_wfs_stack_ptr_t u_stack, struct cds_wfs_node *node)
 	 */
 	cmm_emit_legacy_smp_mb();
 	old_head = uatomic_xchg_mo(&s->head, new_head, CMM_SEQ_CST);
+	urcu_verif_point(URCU_VP_WFS_PUSH_MID, s);
 	/*
 	 * At this point, dequeuers see a NULL node->next, they should
 	 * busy-wait until node->next is set to old_head.
@@ -159,6 +167,7 @@ ___cds_wfs_node_sync_next(struct cds_wfs_node *node, int blocking)
 	 * Adaptative busy-looping waiting for push to complete.
 	 */
 	while ((next = uatomic_load(&node->next, CMM_CONSUME)) == NULL) {
+		urcu_verif_point(URCU_VP_WFS_SYNC_NEXT_WAIT, node);
 		if (!blocking)
 			return CDS_WFS_WOULDBLOCK;
 		if (++attempt >= CDS_WFS_ADAPT_ATTEMPTS) {
@@ -192,6 +201,7 @@ ___cds_wfs_pop(cds_wfs_stack_ptr_t u_stack, int *state, int blocking)
 			return CDS_WFS_WOULDBLOCK;
 		}
 		new_head = caa_container_of(next, struct cds_wfs_head, node);
+		urcu_verif_point(URCU_VP_WFS_POP_BEFORE_CMPXCHG, s);
 		if (uatomic_cmpxchg_mo(&s->head, head, new_head,
 					CMM_SEQ_CST, CMM_SEQ_CST) == head) {
 			if (state && ___cds_wfs_end(new_head))
@@ -199,6 +209,7 @@ ___cds_wfs_pop(cds_wfs_stack_ptr_t u_stack, int *state, int blocking)
 			cmm_emit_legacy_smp_mb();
 			return &head->node;
 		}
+		urcu_verif_point(URCU_VP_WFS_POP_CMPXCHG_FAILED, s);
 		if (!blocking) {
 			return CDS_WFS_WOULDBLOCK;
 		}
